@@ -439,7 +439,9 @@ fn c01_request(rng: &mut Rng) -> (Vec<u8>, bool, bool) {
     let method = *rng.pick(&["GET", "POST", "PUT", "DELETE", "OPTIONS"]);
     let target = *rng.pick(&["/hello", "/nope", "/cors/x", "/echo", "/empty", "/panic", "/wild/a/b?q=1", "/hello?x=y", "/c3", "/h/1"]);
     let version = *rng.pick(&["HTTP/1.1", "HTTP/1.0"]);
-    let conn = *rng.pick(&["keep-alive", "Keep-Alive", "KEEP-ALIVE", "close", "", "keep-alive", "keep-alive"]);
+    // (values that only LOOK like keep-alive after Unicode case mapping — the Kelvin sign, a dotless i — do not ask for it)
+    let conn = *rng.pick(&["keep-alive", "Keep-Alive", "KEEP-ALIVE", "close", "", "keep-alive", "keep-alive", "keep-alive", "keep-alive",
+                           "\u{212a}eep-alive", "keep-al\u{131}ve", "KEEP-AL\u{130}VE", "keepalive", "keep-alive, close"]);
     let mut s: Vec<u8> = Vec::new();
     let kind = rng.below(18);
     let mut wf = true;
